@@ -27,6 +27,9 @@ from . import ring
 from .ring import Poly, Unsupported, ShapeChanged
 from .sym import SBool, Infeasible, PathLimit, have_ctx, current
 
+# development aid (tools/cover_audit.sh): statement lines of repository code executed by the interpreter, dumped by the runner's workers when TVERIF_COVER names a directory
+_COVER = set() if os.environ.get("TVERIF_COVER") else None
+
 sys.setrecursionlimit(100000)
 
 REPO = os.environ.get("TVERIF_REPO", "/repo")
@@ -1132,6 +1135,8 @@ class Interp:
         self.steps += 1
         if self.steps > self.max_steps:
             raise PathLimit("step limit")
+        if _COVER is not None:
+            _COVER.add((env.globals.get("__file__"), s.lineno))
         m = getattr(self, "s_" + type(s).__name__, None)
         if m is None:
             raise Unsupported(f"statement {type(s).__name__} at line {s.lineno}")
